@@ -663,6 +663,83 @@ fn set_u32(b: &mut [u8], off: usize, v: u32) {
     b[off..off + 4].copy_from_slice(&bytes);
 }
 
+/// THE PEER HANGS UP with messages still unread in the receiver's socket (it wrote, then closed or exited): everything
+/// it wrote is still delivered, in order and intact, also when the receiver is in the middle of a message; only then is
+/// the closed connection reported. The model has no hang-up (DESIGN §12): evaluated directly on the implementation.
+fn hangup_family(out: &mut Out, rng: &mut Prng, pool: &Pool, thorough: bool) {
+    use std::io::Write;
+    let rounds = if thorough { 40 } else { 8 };
+    for round in 0..rounds {
+        let (mut conn, mut server) = peer::connect_pair(false);
+        let n = 1 + rng.below(4) as usize;
+        let mut serial = 100 + round as u32 * 10;
+        let frames: Vec<Frame> = (0..n)
+            .map(|i| {
+                serial += 1;
+                let body_len = if rng.chance(1, 3) { 0 } else { rng.range(1, 300) as usize };
+                gen_frame(rng, pool, i, serial, body_len, &[])
+            })
+            .collect();
+        let stream: Vec<u8> = frames.iter().flat_map(|f| f.bytes.iter().copied()).collect();
+        // the receiver has consumed a prefix of the stream (possibly ending inside a message) before the peer writes the
+        // rest and hangs up
+        let cut = if round % 2 == 0 { 0 } else { rng.range(1, (stream.len() - 1) as u64) as usize };
+        let req = format!("c09.hangup frames={} bytes={} read_before_hangup={}", n, stream.len(), cut);
+        let mut got: Vec<u32> = Vec::new();
+        let mut problems: Vec<String> = Vec::new();
+        if cut > 0 {
+            server.write_all(&stream[..cut]).unwrap();
+            loop {
+                match conn.recv.get_next_message(Timeout::Nonblock) {
+                    Ok(m) => got.push(m.dynheader.serial.map(|s| s.get()).unwrap_or(0)),
+                    Err(Error::TimedOut) => break,
+                    Err(e) => {
+                        problems.push(format!("before the hang-up: {:?}", e));
+                        break;
+                    }
+                }
+            }
+        }
+        server.write_all(&stream[cut..]).unwrap();
+        drop(server);
+        let mut closed_seen = false;
+        for _ in 0..(n + 3) {
+            match conn.recv.get_next_message(Timeout::Duration(std::time::Duration::from_millis(200))) {
+                Ok(m) => {
+                    let i = got.len();
+                    let s = m.dynheader.serial.map(|s| s.get()).unwrap_or(0);
+                    if let Some(f) = frames.get(i) {
+                        if s != f.serial || m.get_buf() != &f.body[..] || m.dynheader.member.as_deref() != Some(f.member.as_str()) {
+                            problems.push(format!("message {} arrived damaged (serial {} instead of {})", i, s, f.serial));
+                        }
+                    }
+                    got.push(s);
+                }
+                Err(Error::ConnectionClosed) => {
+                    closed_seen = true;
+                    break;
+                }
+                Err(e) => {
+                    problems.push(format!("after the hang-up: {:?} with {} of {} messages delivered", e, got.len(), n));
+                    break;
+                }
+            }
+        }
+        let want: Vec<u32> = frames.iter().map(|f| f.serial).collect();
+        if got != want {
+            problems.push(format!("the peer wrote messages {:?} and hung up; delivered {:?}", want, got));
+        }
+        if !closed_seen && problems.is_empty() {
+            problems.push("the closed connection was never reported after everything was delivered".into());
+        }
+        out.hit("hangup_case");
+        out.hit(if cut == 0 { "hangup_before_any_read" } else { "hangup_mid_stream" });
+        for p in problems {
+            out.violation(&req, &p);
+        }
+    }
+}
+
 pub fn run(cfg: &Cfg) {
     std::panic::set_hook(Box::new(|_| {}));
     let mut out = Out::new(&cfg.outdir);
@@ -921,6 +998,7 @@ pub fn run(cfg: &Cfg) {
             }
         }
     }
+    hangup_family(&mut out, &mut rng, &pool, cfg.thorough);
     drop(pool);
     out.finish(
         "streams of 2-6 generated messages (call/signal, both byte orders, body 0..150000 bytes, 0-3 (10, 11, 13) real descriptors) \
@@ -930,7 +1008,8 @@ pub fn run(cfg: &Cfg) {
          oversized announcements, undecodable complete frames; read_once on a buffer that already holds a complete message \
          (in the random policies and in a dedicated family: 1-3 messages with 0-3 descriptors each x 7+ chunkings x 3 schedules, the \
          next message and its descriptors already queued). A case is one (stream, chunking, call script); non-trivial = at least \
-         two chunks",
+         two chunks. Outside the model (direct checks only): the peer writes 1-4 messages and HANGS UP, before the receiver read anything or \
+         when it is in the middle of a message: everything written is delivered in order, then ConnectionClosed is reported",
         false,
     );
     let _ = exhaustive_pairs;
